@@ -20,7 +20,7 @@ from ..kernel import Discard, EventLog, InjectedFault, Violation, adigest, close
 PROP = "C15"
 
 EVIDENCE = {
-    "probes_expected": ["restart-performed", "refined-twin-compared", "pseudo-elastic-unloading-point", "plastic-point", "failure-then-stop", "commit-seen", "repeat-level-compared", "retry-after-failure-compared"],
+    "probes_expected": ["restart-performed", "refined-twin-compared", "pseudo-elastic-unloading-point", "plastic-point", "failure-then-stop", "commit-seen", "repeat-level-compared", "retry-after-failure-compared", "step-reused-after-boundary-change"],
     "clauses_sampled_only": [],
 }
 
@@ -38,6 +38,7 @@ def generate(seed, tier, k):
         "restart_after": r.randrange(nsub) if (mode == 0 and r.random() < 0.5 and nsub > 1) else None,
         "restart_drop_state": r.random() < 0.5,
         "refine": mode == 1 and r.random() < 0.6,
+        "reuse_step": mode == 0 and r.random() < 0.4,
     }
     return doc
 
@@ -354,6 +355,9 @@ def run(doc, log):
     # path independence for elastic materials ---------------------------------------------------
     if fault_free and exc is None and opts.get("refine") and is_elastic(doc):
         refine_check(doc, eng, log)
+    # the same Step object evaluated again after its boundary dictionary was changed -----------------
+    if fault_free and exc is None and opts.get("reuse_step") and nconv >= 1 and doc["field"]["kind"] != "Mixed3":
+        reuse_step_check(doc, eng, log)
     # failure, then continuation on the SAME objects from the last converged state --------------
     if exc is not None and eng.fired and opts.get("retry", True):
         retry_check(doc, eng, exc, log)
@@ -461,6 +465,62 @@ def restart_check(doc, eng, ra, drop_state, log):
         if not ok:
             raise Violation(PROP, "restart-equivalence", f"item {k}: state variables after restart differ (rel {rel:.2e})", site="restart.statevars")
     log.count("restart-performed")
+
+
+def reuse_step_check(doc, eng, log):
+    """Second phase of a two-phase loading: the boundary dictionary of the last Step is changed
+    (one more face is held) and the same Step object is evaluated again over a new ramp. The
+    result must be that of a freshly created Step with the same dictionary from the same state."""
+    w = eng.w
+    j = len(w.steps) - 1
+    step = w.steps[j]
+    sdoc = doc["steps"][j]
+    dim = w.mesh.dim
+    ax = dim - 1
+    skip = [True] * dim
+    skip[ax] = False
+
+    def extra(world_):
+        pts = world_.mesh.points[:-1] if world_.doc["mesh"].get("extra_point") else world_.mesh.points
+        return fem.Boundary(world_.field[0], skip=tuple(skip), value=0.0, **{["fx", "fy", "fz"][ax]: float(pts[:, ax].max())})
+
+    # new ramp for the second phase: back to half of the last value in two substeps
+    s2 = copy.deepcopy(sdoc)
+    for r in s2["ramp"]:
+        last = r["values"][-1]
+        if isinstance(last, list):
+            r["values"] = [[0.75 * c for c in last], [0.5 * c for c in last]]
+        else:
+            r["values"] = [0.75 * last, 0.5 * last]
+    kw = {k: v for k, v in doc.get("newton", {}).items() if k in ("tol", "maxiter")}
+    # twin: fresh world + fresh Step at the same durable state
+    d2 = copy.deepcopy(doc)
+    d2["faults"] = []
+    w2 = world.World(d2)
+    apply_model_ramp(w2, j, len(sdoc["ramp"][0]["values"]) - 1)
+    w2.load(w.durable())
+    w2.boundaries = dict(w2.boundaries)
+    w2.boundaries["held"] = extra(w2)
+    fresh = w2._build_step(dict(s2, boundaries=None))
+    fresh.boundaries = dict(fresh.boundaries)
+    fresh.boundaries["held"] = w2.boundaries["held"]
+    # live: same Step object, boundary dictionary changed, ramp replaced
+    step.boundaries["held"] = extra(w)
+    new = w._build_step(s2)
+    step.ramp = new.ramp
+    step.nsubsteps = new.nsubsteps
+    try:
+        res_live = [r.x[0].values.copy() for r in step.generate(verbose=False, **kw)]
+        res_twin = [r.x[0].values.copy() for r in fresh.generate(verbose=False, **kw)]
+    except ValueError:
+        raise Discard("second-phase-did-not-converge")
+    for n, (a, b) in enumerate(zip(res_live, res_twin)):
+        scale = max(float(np.abs(b).max()), 1e-2)
+        d = float(np.abs(a - b).max())
+        tol = doc.get("newton", {}).get("tol", 1.5e-8)
+        if d > 2e-5 * max(1.0, tol / 1.5e-8) * scale:
+            raise Violation(PROP, "reuse-step", f"a Step evaluated again after its boundary dictionary was changed differs from a fresh Step with the same dictionary by {d:.3e} (substep {n}, scale {scale:.2e})", site="Step.generate.reuse")
+    log.count("step-reused-after-boundary-change")
 
 
 def retry_check(doc, eng, exc, log):
